@@ -23,6 +23,33 @@ func singleItem(k string) bool { return k != "insertMany" && k != "bulk" }
 // c02After: a failing single-item call must leave every namespace (documents,
 // index definitions, index contents, change log) byte-identical.
 func c02After(e *Env, st *model.State, op *Op, c *CallRec, before, after *lungo.Catalog) {
+	if op.K == "s.txn" {
+		// failing calls inside a transaction that goes on and commits: they must not have left anything in the
+		// transaction's working state - documents are decided by the model comparison, index contents here
+		failed := 0
+		for _, sub := range c.Subs {
+			if (sub.Err != nil || sub.Res.Err != "") && isWrite(sub.Op.K) {
+				failed++
+				e.probe("failed-write-in-transaction:" + sub.Op.K)
+			}
+		}
+		if failed > 0 && c.TxnOK {
+			v := checkIndexes(after)
+			if v == nil {
+				v = checkUnique(after)
+			}
+			if v != nil {
+				e.violate(violation("C02", "failed-write-left-trace", "in-transaction", fmt.Sprintf("a transaction with %d failing calls committed a catalog whose indexes are damaged: %s", failed, v.Detail)))
+			}
+		}
+		if !c.TxnOK && c.Err == nil {
+			// aborted: nothing at all may differ
+			if b, a := catalogDump(before, true), catalogDump(after, true); a != b {
+				e.violate(violation("C02", "failed-write-left-trace", "aborted-transaction", fmt.Sprintf("an aborted transaction changed the database:\n--- before\n%s--- after\n%s", clip(b), clip(a))))
+			}
+		}
+		return
+	}
 	if c.Err == nil && c.Res.Err == "" {
 		return
 	}
@@ -40,6 +67,10 @@ func c02After(e *Env, st *model.State, op *Op, c *CallRec, before, after *lungo.
 	// exactly the number of changes that took effect
 	grown := len(after.Namespaces[lungo.Oplog].Documents.List) - len(before.Namespaces[lungo.Oplog].Documents.List)
 	want := int(c.Res.Inserted + c.Res.Modified + c.Res.Upserted + c.Res.Deleted)
+	if e.plan.Cfg.MaxOplog < 100 {
+		// retention may trim in the same commit: the C08 monitor replays the log instead
+		grown = want
+	}
 	if grown != want {
 		e.violate(violation("C02", "failed-batch-event-count", op.K, fmt.Sprintf("%s: %d changes took effect but the change log grew by %d events", opStr(op), want, grown)))
 	}
@@ -54,7 +85,15 @@ func genC02(seed uint64, run int, tier string) *Plan {
 	g.colls = []string{"c0"}
 	g.ids = 3 + r.IntN(3)
 	p := &Plan{Prop: "C02", Seed: seed, Run: run, Cfg: seqCfg(r)}
-	p.Cfg.MinOplog, p.Cfg.MaxOplog = 1000, 2000 // no retention in this workload: event counts are compared
+	p.Cfg.MinOplog, p.Cfg.MaxOplog = 1000, 2000 // no retention in most runs: event counts are compared
+	idle := r.IntN(10) < 3
+	if idle {
+		// retention with second-scale ages and idle periods: a failing call must not trim the change log either
+		p.Cfg.MinOplog = 1 + r.IntN(3)
+		p.Cfg.MaxOplog = p.Cfg.MinOplog + r.IntN(3)
+		p.Cfg.MinAgeS, p.Cfg.MaxAgeS = 1, pick(r, int64(1), 2, 3600)
+		p.Cfg.ExpireMs = 3600000
+	}
 	tp := TaskPlan{Name: "client"}
 	tp.Ops = append(tp.Ops, g.seedOps(100)...)
 	if r.IntN(2) == 0 {
@@ -63,7 +102,32 @@ func genC02(seed uint64, run int, tier string) *Plan {
 	n := deepen(tier, seed, 1+r.IntN(8))
 	for i := 0; i < n; i++ {
 		var op Op
-		switch r.IntN(10) {
+		switch r.IntN(12) {
+		case 10, 11:
+			// a session transaction whose body contains failing calls and which then commits (or aborts)
+			op = Op{K: "s.txn", End: pick(r, "commit", "commit", "commit", "abort"), Tag: "t"}
+			if r.IntN(3) == 0 {
+				op.Sess = privSess
+			}
+			for k := 2 + r.IntN(3); k > 0; k-- {
+				var sub Op
+				switch r.IntN(4) {
+				case 0:
+					sub = Op{K: "updateMany", F: jd(pick(r, bson.D{}, g.filter())), U: jd(bson.D{{Key: pick(r, "$set", "$inc"), Value: bson.D{{Key: pick(r, "a", "b"), Value: int32(1)}}}})}
+				case 1:
+					sub = Op{K: "insertOne", D: jd(g.doc(true))}
+				default:
+					sub = g.crudPlain()
+					for !isWrite(sub.K) || sub.K == "dropDB" || sub.K == "dropColl" || sub.K == "createColl" || isIndexOp(sub.K) {
+						sub = g.crudPlain()
+					}
+				}
+				sub.DB, sub.C = "db", "c0"
+				if sub.K == "findOneAndUpdate" || sub.K == "findOneAndReplace" {
+					sub.Upsert = false // (the id an upsert generates is not reported by these calls)
+				}
+				op.Sub = append(op.Sub, sub)
+			}
 		case 0, 1, 2:
 			// multi-document update that may fail at the k-th matched document
 			op = Op{K: "updateMany", DB: "db", C: "c0", F: jd(pick(r, bson.D{}, g.filter())), U: jd(g.update())}
@@ -92,6 +156,9 @@ func genC02(seed uint64, run int, tier string) *Plan {
 			op.TTL = &big
 		}
 		tp.Ops = append(tp.Ops, op)
+		if idle && r.IntN(2) == 0 {
+			tp.Ops = append(tp.Ops, Op{K: "sleep", Ms: int64(1100 + r.IntN(3000))})
+		}
 	}
 	if r.IntN(4) == 0 {
 		p.Faults = append(p.Faults, Fault{Kind: pick(r, "store-before", "store-after"), At: 1 + r.IntN(6)})
